@@ -20,3 +20,6 @@ INVARIANT RResumeConsistent
 INVARIANT RPagingConsistent
 INVARIANT RConfigIndependent
 INVARIANT REventually
+INVARIANT RLateOrdered
+INVARIANT RLateNoDup
+INVARIANT RLateSound
